@@ -1,72 +1,47 @@
 import RomeaProofs.Lemmas.C14Ray
 
 /-!
-# C14 helper lemmas, part 3: the traversal (`next` repeated) as a merge of the per-axis crossing sequences
+# C14 helper lemmas, part 3: over ℝ every cell entered contains a point of the segment
 
-The state after some steps is described by how many crossings `m i` have been taken on each axis:
-`tMax i = T i + m i * δ i`, `cell i = K i + σ i * m i`.  While fewer than `L1 = Σ N i` steps have been made,
-some axis still has a needed crossing (parameter ≤ R < sentinel), so the axis with the smallest `tMax`
-is a moving axis and its crossing parameter is ≤ R; the cell entered contains the ray point at that
-parameter.  After exactly `L1` steps no axis has a crossing parameter below `R` left.
+The counting argument (`C14Count.lean`) already gives length, adjacency, the index box and the end cell for
+every scalar type; its hypotheses (`Fresh`) are discharged here for the reals.  What needs real arithmetic
+is `cells_are_crossed`: the traversal is a merge of the per-axis crossing sequences `τ_i(m) = T_i + m δ_i`
+in ascending order, restricted to the crossings the ray really makes; the axis selected has the smallest
+pending parameter among the axes that still have crossings to make, that parameter is ≤ the ray length, and
+the cell entered contains the ray point at that parameter.
 -/
+set_option linter.unusedSectionVars false
+
 namespace Romea.RayCast
 open Romea
 
 variable {d : Nat}
 
-/-- face-adjacent cells: one coordinate changes by exactly one -/
-def Adjacent (c c' : Vec d Int) : Prop :=
-  ∃ a, (c'.at a = c.at a + 1 ∨ c'.at a = c.at a - 1) ∧ ∀ i, i ≠ a → c'.at i = c.at i
-
 /-- the closed cell `c` contains a point of the segment from `o` to `e` -/
 def Crossed (G : Grid d ℝ) (o e : Vec d ℝ) (c : Vec d Int) : Prop :=
   ∃ u : ℝ, 0 ≤ u ∧ u ≤ 1 ∧ ∀ i, InClosed G i (c.at i) (o.at i + u * (e.at i - o.at i))
 
-/-- consecutive cells of `c :: l` are face-adjacent -/
-def ChainAdj : Vec d Int → List (Vec d Int) → Prop
-  | _, [] => True
-  | c, c' :: l => Adjacent c c' ∧ ChainAdj c' l
-
-/-- last cell of `c :: l` -/
-def lastCell : Vec d Int → List (Vec d Int) → Vec d Int
-  | c, [] => c
-  | _, c' :: l => lastCell c' l
-
-theorem lastCell_eq_getLast (c : Vec d Int) (l : List (Vec d Int)) :
-    lastCell c l = (c :: l).getLast (List.cons_ne_nil c l) := by
-  induction l generalizing c with
-  | nil => rfl
-  | cons a l ih => rw [lastCell, ih a, List.getLast_cons (List.cons_ne_nil a l)]
-
-theorem chainAdj_get (c : Vec d Int) (l : List (Vec d Int)) (h : ChainAdj c l) :
-    ∀ k (hk : k + 1 < (c :: l).length), Adjacent ((c :: l)[k]'(by omega)) ((c :: l)[k + 1]'hk) := by
-  induction l generalizing c with
-  | nil => intro k hk; simp at hk
-  | cons a l ih =>
-    intro k hk
-    cases k with
-    | zero => exact h.1
-    | succ k =>
-      have := ih a h.2 k (by simpa using hk)
-      simpa using this
-
 variable [Big] {G : Grid d ℝ} {o e : Vec d ℝ} {R : ℝ} {s₀ : State d ℝ}
 
-/-- number of crossings the ray makes on axis `i` -/
-def needed (s₀ : State d ℝ) (i : Fin d) : ℕ := (s₀.eIdx.at i - s₀.oIdx.at i).natAbs
+theorem strictOrd_real : StrictOrd ℝ := ⟨fun a => lt_irrefl a, fun _ _ _ => lt_trans⟩
 
-/-- the traversal state after some steps, described by the number of crossings taken per axis -/
-structure Inv (R : ℝ) (s₀ s : State d ℝ) (c : Vec d Int) (m : Fin d → ℕ) : Prop where
-  hstep : s.step = s₀.step
-  hdelta : s.tDelta = s₀.tDelta
-  htmax : ∀ i, s.tMax.at i = s₀.tMax.at i + m i * s₀.tDelta.at i
-  hcell : ∀ i, c.at i = s₀.oIdx.at i + s₀.step.at i * m i
-  /-- every crossing already taken lies at or before every crossing still pending -/
-  taken_le : ∀ b i, 0 < m b →
-    s₀.tMax.at b + ((m b : ℝ) - 1) * s₀.tDelta.at b ≤ s₀.tMax.at i + m i * s₀.tDelta.at i
-  /-- … and at or before the end of the ray -/
-  taken_le_R : ∀ b, 0 < m b → s₀.tMax.at b + ((m b : ℝ) - 1) * s₀.tDelta.at b ≤ R
-  still0 : ∀ i, s₀.step.at i = 0 → m i = 0
+theorem pickOK_of_argmin {sp : Spec d ℝ} (hsp : SpecOK sp) : PickOK sp := by
+  intro t M _ ⟨i, hi⟩
+  exact lt_of_le_of_lt (hsp.argmin t i) hi
+
+theorem tmaxAfter_real (s₀ : State d ℝ) (i : Fin d) (k : ℕ) :
+    tmaxAfter s₀ i k = s₀.tMax.at i + k * s₀.tDelta.at i := by
+  unfold tmaxAfter
+  induction k with
+  | zero => simp
+  | succ k ih => rw [Function.iterate_succ_apply', ih]; push_cast; ring
+
+/-- real-arithmetic part of the invariant: every crossing already taken lies at or before every crossing still
+    pending on an axis with crossings left, and at or before the end of the ray -/
+structure RInv (G : Grid d ℝ) (R : ℝ) (s₀ : State d ℝ) (m : Fin d → ℕ) : Prop where
+  taken_le : ∀ b i, 0 < m b → m i < needed s₀ i →
+    firstT G s₀ b + ((m b : ℝ) - 1) * s₀.tDelta.at b ≤ firstT G s₀ i + m i * s₀.tDelta.at i
+  taken_le_R : ∀ b, 0 < m b → firstT G s₀ b + ((m b : ℝ) - 1) * s₀.tDelta.at b ≤ R
 
 namespace RayFacts
 variable (F : RayFacts G o e R s₀)
@@ -74,59 +49,50 @@ include F
 
 theorem Mpos : 0 < Big.M := lt_trans F.Rpos F.RltM
 
-theorem δpos (i : Fin d) : 0 < s₀.tDelta.at i := by
-  by_cases h : s₀.step.at i = 0
-  · rw [(F.still i h).2.2.2]; exact F.Mpos
-  · exact (F.moving i h).δpos
+theorem moving_of_needed (i : Fin d) (h : 0 < needed s₀ i) : s₀.step.at i ≠ 0 := by
+  intro hst
+  unfold needed at h
+  rw [(F.still i hst).2] at h
+  simp at h
 
-theorem needed_le (i : Fin d) (m : ℕ) (hm : m < needed s₀ i) :
-    s₀.tMax.at i + m * s₀.tDelta.at i ≤ R := by
-  by_cases h : s₀.step.at i = 0
-  · exfalso
-    unfold needed at hm
-    rw [(F.still i h).2.1] at hm
-    simp at hm
-  · exact (F.moving i h).needed m hm
+theorem tmax_of_needed (i : Fin d) (h : 0 < needed s₀ i) : s₀.tMax.at i = firstT G s₀ i := by
+  rw [F.tmax0 i, if_neg (by omega)]
 
-theorem unneeded_ge (i : Fin d) (m : ℕ) (hm : needed s₀ i ≤ m) :
-    R ≤ s₀.tMax.at i + m * s₀.tDelta.at i := by
-  by_cases h : s₀.step.at i = 0
-  · rw [(F.still i h).2.2.1, (F.still i h).2.2.2]
-    have := F.Mpos
-    have := F.RltM
-    have : (0 : ℝ) ≤ m := Nat.cast_nonneg m
-    nlinarith
-  · exact (F.moving i h).unneeded m hm
+/-- the hypotheses of the counting argument hold over the reals -/
+theorem fresh : Fresh s₀ where
+  idx := F.idx
+  rem0 := F.rem0
+  tmax0 := by intro i h; rw [F.tmax0 i, if_pos h]; rfl
+  sign := by
+    intro i
+    rcases F.σ_cases i with h | h | h
+    · have := (F.still i h).2
+      constructor <;> intro hlt <;> omega
+    · have := (F.moving i (by rw [h]; norm_num)).order
+      rw [h] at this
+      exact ⟨fun _ => h, fun hlt => by have := this.1 rfl; omega⟩
+    · have := (F.moving i (by rw [h]; norm_num)).order
+      rw [h] at this
+      exact ⟨fun hlt => by have := this.2 rfl; omega, fun _ => h⟩
+  below := by
+    intro i k hk
+    rw [tmaxAfter_real, F.tmax_of_needed i (by omega)]
+    have := (F.moving i (F.moving_of_needed i (by omega))).needed k hk
+    exact lt_of_le_of_lt this F.RltM
 
-theorem still_gt (i : Fin d) (h : s₀.step.at i = 0) (m : ℕ) :
-    R < s₀.tMax.at i + m * s₀.tDelta.at i := by
-  rw [(F.still i h).2.2.1, (F.still i h).2.2.2]
-  have := F.Mpos
-  have := F.RltM
-  have : (0 : ℝ) ≤ m := Nat.cast_nonneg m
-  nlinarith
-
-omit [Big] F in
-/-- the initial state satisfies the invariant with no crossing taken -/
-theorem inv_init : Inv R s₀ s₀ s₀.oIdx (fun _ => 0) where
-  hstep := rfl
-  hdelta := rfl
-  htmax := by intro i; simp
-  hcell := by intro i; simp
-  taken_le := by intro b i h; exact absurd h (lt_irrefl 0)
-  taken_le_R := by intro b h; exact absurd h (lt_irrefl 0)
-  still0 := by intro i _; rfl
+theorem rinv_init : RInv G R s₀ (fun _ => 0) :=
+  ⟨fun _ _ h _ => absurd h (lt_irrefl 0), fun _ h => absurd h (lt_irrefl 0)⟩
 
 /-- the origin cell is crossed (at parameter 0) -/
 theorem crossed_init : Crossed G o e s₀.oIdx :=
   ⟨0, le_refl 0, zero_le_one, fun i => by simpa using F.inK i⟩
 
 /-- the ray point at parameter `t` is in the closed cell described by the counts `m`, provided `t` lies between
-    the last crossing taken and the next crossing pending on every moving axis -/
+    the last crossing taken and the next geometric crossing on every moving axis -/
 theorem point_in_cell (m : Fin d → ℕ) (t : ℝ) (ht0 : 0 ≤ t) (htR : t ≤ R)
     (hstill : ∀ i, s₀.step.at i = 0 → m i = 0)
-    (hlow : ∀ i, s₀.step.at i ≠ 0 → 0 < m i → s₀.tMax.at i + ((m i : ℝ) - 1) * s₀.tDelta.at i ≤ t)
-    (hup : ∀ i, s₀.step.at i ≠ 0 → t ≤ s₀.tMax.at i + m i * s₀.tDelta.at i) :
+    (hlow : ∀ i, s₀.step.at i ≠ 0 → 0 < m i → firstT G s₀ i + ((m i : ℝ) - 1) * s₀.tDelta.at i ≤ t)
+    (hup : ∀ i, s₀.step.at i ≠ 0 → t ≤ firstT G s₀ i + m i * s₀.tDelta.at i) :
     Crossed G o e (build fun i => s₀.oIdx.at i + s₀.step.at i * m i) := by
   have hR := F.Rpos
   refine ⟨t / R, div_nonneg ht0 hR.le, (div_le_one hR).mpr htR, ?_⟩
@@ -136,7 +102,7 @@ theorem point_in_cell (m : Fin d → ℕ) (t : ℝ) (ht0 : 0 ≤ t) (htR : t ≤
   · rw [hstill i h, h, (F.still i h).1]
     simpa using F.inK i
   · have A := F.moving i h
-    have hl : s₀.tMax.at i + ((m i : ℝ) - 1) * s₀.tDelta.at i ≤ t := by
+    have hl : firstT G s₀ i + ((m i : ℝ) - 1) * s₀.tDelta.at i ≤ t := by
       rcases Nat.eq_zero_or_pos (m i) with h0 | hpos
       · rw [h0]
         have := A.start.2
@@ -149,192 +115,104 @@ theorem point_in_cell (m : Fin d → ℕ) (t : ℝ) (ht0 : 0 ≤ t) (htR : t ≤
 
 end RayFacts
 
-/-- one `next` call while crossings remain: a moving axis is advanced, the cell entered is face-adjacent to the
-    previous one and contains a point of the segment; the invariant is re-established -/
-theorem next_lemma {sp : Spec d ℝ} (hsp : SpecOK sp) (F : RayFacts G o e R s₀)
-    (hbound : ∀ c, Crossed G o e c → ∀ i, 0 ≤ c.at i ∧ c.at i < 2 ^ 31)
-    {s : State d ℝ} {c : Vec d Int} {m : Fin d → ℕ} (hI : Inv R s₀ s c m)
+/-- one `next` call while crossings remain, over ℝ: the cell entered contains a point of the segment -/
+theorem next_real {sp : Spec d ℝ} (hsp : SpecOK sp) (F : RayFacts G o e R s₀)
+    {s : State d ℝ} {c : Vec d Int} {m : Fin d → ℕ} (hI : CInv s₀ s c m) (hR : RInv G R s₀ m)
     (hlt : ∑ i, m i < ∑ i, needed s₀ i) :
-    ∃ m', Inv R s₀ (next sp s c).1 (next sp s c).2 m' ∧ ∑ i, m' i = ∑ i, m i + 1 ∧
-      Adjacent c (next sp s c).2 ∧ Crossed G o e (next sp s c).2 := by
+    Crossed G o e (next sp s c).2 ∧ RInv G R s₀ (fun i => m i + (if i = sp.pick s.tMax then 1 else 0)) := by
+  obtain ⟨hma, hI', -⟩ := next_count strictOrd_real (pickOK_of_argmin hsp) F.fresh hI hlt
   set a := sp.pick s.tMax with ha
-  have hδ := F.δpos
-  -- the smallest pending crossing parameter
-  set τ : ℝ := s₀.tMax.at a + m a * s₀.tDelta.at a with hτ
-  have hmin : ∀ i, τ ≤ s₀.tMax.at i + m i * s₀.tDelta.at i := by
-    intro i
-    have := hsp.argmin s.tMax i
-    rw [← ha, hI.htmax a, hI.htmax i] at this
-    exact this
-  obtain ⟨b, -, hb⟩ := Finset.exists_lt_of_sum_lt hlt
-  have hτR : τ ≤ R := le_trans (hmin b) (F.needed_le b (m b) hb)
-  have hσa : s₀.step.at a ≠ 0 := by
-    intro h0
-    have := F.still_gt a h0 (m a)
-    linarith
-  have hτ0 : 0 ≤ τ := by
-    have := (F.moving a hσa).start.1
-    have : (0 : ℝ) ≤ m a := Nat.cast_nonneg _
-    have := hδ a
-    rw [hτ]; nlinarith
-  -- new counts
   set m' : Fin d → ℕ := fun i => m i + (if i = a then 1 else 0) with hm'
   have hm'a : m' a = m a + 1 := by simp [hm']
   have hm'ne : ∀ i, i ≠ a → m' i = m i := by intro i hi; simp [hm', hi]
-  have hsum : ∑ i, m' i = ∑ i, m i + 1 := by
-    simp [hm', Finset.sum_add_distrib]
-  -- the cell entered, as described by the counts
+  have hδ : ∀ i, s₀.step.at i ≠ 0 → 0 < s₀.tDelta.at i := fun i h => (F.moving i h).δpos
+  have hσa : s₀.step.at a ≠ 0 := F.moving_of_needed a (by omega)
+  -- the crossing taken
+  set τ : ℝ := firstT G s₀ a + m a * s₀.tDelta.at a with hτ
+  have htmax_a : s.tMax.at a = τ := by
+    rw [hI.htmax a, if_pos hma, tmaxAfter_real, F.tmax_of_needed a (by omega)]
+  have hmin : ∀ i, m i < needed s₀ i → τ ≤ firstT G s₀ i + m i * s₀.tDelta.at i := by
+    intro i hi
+    have := hsp.argmin s.tMax i
+    rw [← ha, htmax_a, hI.htmax i, if_pos hi, tmaxAfter_real, F.tmax_of_needed i (by omega)] at this
+    exact this
+  have hτR : τ ≤ R := (F.moving a hσa).needed (m a) hma
+  have hτ0 : 0 ≤ τ := by
+    have := (F.moving a hσa).start.1
+    have : (0 : ℝ) ≤ m a := Nat.cast_nonneg _
+    have := hδ a hσa
+    rw [hτ]; nlinarith
   have hcross : Crossed G o e (build fun i => s₀.oIdx.at i + s₀.step.at i * m' i) := by
     apply F.point_in_cell m' τ hτ0 hτR
     · intro i hi
-      have : i ≠ a := fun h => hσa (h ▸ hi)
-      rw [hm'ne i this]; exact hI.still0 i hi
+      have hia : i ≠ a := fun h => hσa (h ▸ hi)
+      rw [hm'ne i hia]
+      have := hI.hm i
+      have hN : needed s₀ i = 0 := by unfold needed; rw [(F.still i hi).2]; simp
+      omega
     · intro i _ hpos
       by_cases hia : i = a
       · subst hia; rw [hm'a]; push_cast; rw [hτ]; ring_nf; exact le_refl _
       · rw [hm'ne i hia] at hpos ⊢
-        exact hI.taken_le i a hpos
-    · intro i _
+        exact hR.taken_le i a hpos hma
+    · intro i hi
       by_cases hia : i = a
-      · subst hia; rw [hm'a, hτ]; push_cast; nlinarith [hδ a]
-      · rw [hm'ne i hia]; exact hmin i
-  have hcella : (next sp s c).2.at a = s₀.oIdx.at a + s₀.step.at a * m' a := by
-    have hb' := (hbound _ hcross a)
-    simp only [at_build] at hb'
-    simp only [next, at_upd_self, ← ha]
-    rw [hI.hcell a, hI.hstep, hm'a]
-    have : s₀.oIdx.at a + s₀.step.at a * (m a : ℤ) + s₀.step.at a =
-        s₀.oIdx.at a + s₀.step.at a * ((m a + 1 : ℕ) : ℤ) := by push_cast; ring
-    rw [this]
-    rw [hm'a] at hb'
-    exact wrap64_id hb'.1 hb'.2
-  have hcellne : ∀ i, i ≠ a → (next sp s c).2.at i = c.at i := by
-    intro i hi
-    simp only [next, ← ha]
-    exact at_upd_ne _ _ hi
+      · subst hia; rw [hm'a, hτ]; push_cast; nlinarith [hδ a hi]
+      · rw [hm'ne i hia]
+        by_cases hex : m i < needed s₀ i
+        · exact hmin i hex
+        · have hge : needed s₀ i ≤ m i := by omega
+          exact le_trans hτR ((F.moving i hi).unneeded (m i) hge)
   have hcell' : (next sp s c).2 = build fun i => s₀.oIdx.at i + s₀.step.at i * m' i := by
     apply vec_ext
     intro i
     simp only [at_build]
-    by_cases hia : i = a
-    · subst hia; exact hcella
-    · rw [hcellne i hia, hI.hcell i, hm'ne i hia]
-  refine ⟨m', ?_, hsum, ?_, ?_⟩
-  · constructor
-    · exact hI.hstep
-    · exact hI.hdelta
-    · intro i
-      simp only [next, ← ha]
+    exact hI'.hcell i
+  refine ⟨by rw [hcell']; exact hcross, ?_, ?_⟩
+  · intro b i hpos hi
+    show firstT G s₀ b + ((m' b : ℝ) - 1) * s₀.tDelta.at b ≤ firstT G s₀ i + m' i * s₀.tDelta.at i
+    have hiN : 0 < needed s₀ i := by omega
+    have hmi : m i < needed s₀ i := by
       by_cases hia : i = a
-      · subst hia
-        rw [at_upd_self, hI.htmax a, hI.hdelta, hm'a]; push_cast; ring
-      · rw [at_upd_ne _ _ hia, hI.htmax i, hm'ne i hia]
-    · intro i; rw [hcell']; simp
-    · intro b' i hpos
-      have hmi : s₀.tMax.at i + m i * s₀.tDelta.at i ≤ s₀.tMax.at i + m' i * s₀.tDelta.at i := by
-        by_cases hia : i = a
-        · subst hia; rw [hm'a]; push_cast; nlinarith [hδ a]
-        · rw [hm'ne i hia]
-      by_cases hba : b' = a
-      · subst hba
-        rw [hm'a]; push_cast
-        have := hmin i
-        rw [hτ] at this
-        linarith
-      · rw [hm'ne b' hba] at hpos ⊢
-        exact le_trans (hI.taken_le b' i hpos) hmi
-    · intro b' hpos
-      by_cases hba : b' = a
-      · subst hba
-        rw [hm'a]; push_cast
-        rw [hτ] at hτR
-        linarith
-      · rw [hm'ne b' hba] at hpos ⊢
-        exact hI.taken_le_R b' hpos
-    · intro i hi
-      have : i ≠ a := fun h => hσa (h ▸ hi)
-      rw [hm'ne i this]; exact hI.still0 i hi
-  · refine ⟨a, ?_, hcellne⟩
-    rw [hcella, hI.hcell a, hm'a]
-    rcases F.σ_cases a with h | h | h
-    · exact absurd h hσa
-    · left; rw [h]; push_cast; ring
-    · right; rw [h]; push_cast; ring
-  · rw [hcell']; exact hcross
-
-/-- `k` `next` calls while at least `k` crossings remain -/
-theorem steps_lemma {sp : Spec d ℝ} (hsp : SpecOK sp) (F : RayFacts G o e R s₀)
-    (hbound : ∀ c, Crossed G o e c → ∀ i, 0 ≤ c.at i ∧ c.at i < 2 ^ 31) (k : ℕ) :
-    ∀ (s : State d ℝ) (c : Vec d Int) (m : Fin d → ℕ), Inv R s₀ s c m →
-      ∑ i, m i + k ≤ ∑ i, needed s₀ i →
-      ∃ m', Inv R s₀ (steps sp k s c).1 (lastCell c (steps sp k s c).2) m' ∧ ∑ i, m' i = ∑ i, m i + k ∧
-        (steps sp k s c).2.length = k ∧ ChainAdj c (steps sp k s c).2 ∧
-        ∀ c' ∈ (steps sp k s c).2, Crossed G o e c' := by
-  induction k with
-  | zero =>
-    intro s c m hI _
-    exact ⟨m, by simpa [steps, lastCell] using hI, by simp, by simp [steps], by simp [steps, ChainAdj],
-      by simp [steps]⟩
-  | succ k ih =>
-    intro s c m hI hle
-    obtain ⟨m₁, hI₁, hsum₁, hadj, hcr⟩ := next_lemma hsp F hbound hI (by omega)
-    obtain ⟨m₂, hI₂, hsum₂, hlen, hchain, hall⟩ := ih (next sp s c).1 (next sp s c).2 m₁ hI₁ (by omega)
-    refine ⟨m₂, ?_, by omega, ?_, ?_, ?_⟩
-    · simpa [steps, lastCell] using hI₂
-    · simp [steps, hlen]
-    · simp only [steps, ChainAdj]; exact ⟨hadj, hchain⟩
-    · intro c' hc'
-      simp only [steps, List.mem_cons] at hc'
-      rcases hc' with rfl | h
-      · exact hcr
-      · exact hall c' h
-
-/-- after exactly `L1` steps the closed current cell contains the end point -/
-theorem end_in_final_cell (F : RayFacts G o e R s₀) {s : State d ℝ} {c : Vec d Int} {m : Fin d → ℕ}
-    (hI : Inv R s₀ s c m) (hsum : ∑ i, m i = ∑ i, needed s₀ i) (i : Fin d) :
-    InClosed G i (c.at i) (e.at i) := by
-  rw [hI.hcell i]
-  by_cases h : s₀.step.at i = 0
-  · rw [hI.still0 i h, h, (F.still i h).1]
-    simpa using F.inK i
-  · have A := F.moving i h
-    have hR := F.Rpos
-    have hl : s₀.tMax.at i + ((m i : ℝ) - 1) * s₀.tDelta.at i ≤ R := by
-      rcases Nat.eq_zero_or_pos (m i) with h0 | hpos
-      · rw [h0]
-        have := A.start.2
-        simp only [Nat.cast_zero, zero_sub, neg_mul, one_mul]
-        linarith
-      · exact hI.taken_le_R i hpos
-    have hu : R ≤ s₀.tMax.at i + m i * s₀.tDelta.at i := by
-      by_contra hlt
-      rw [not_le] at hlt
-      have hmi : m i < needed s₀ i := by
-        by_contra hge
-        rw [not_lt] at hge
-        exact absurd (F.unneeded_ge i (m i) hge) (not_le.mpr hlt)
-      -- some axis has taken more crossings than needed
-      have : ∃ b, needed s₀ b < m b := by
-        by_contra hall
-        have hall' : ∀ b, m b ≤ needed s₀ b := by
-          intro b
-          by_contra hb
-          exact hall ⟨b, not_le.mp hb⟩
-        have := Finset.sum_lt_sum (s := Finset.univ) (fun b _ => hall' b) ⟨i, Finset.mem_univ i, hmi⟩
-        omega
-      obtain ⟨b, hb⟩ := this
-      have hpos : 0 < m b := by omega
-      have h1 := F.unneeded_ge b (m b - 1) (by omega)
-      have h2 := hI.taken_le b i hpos
-      have hc : (((m b - 1 : ℕ)) : ℝ) = (m b : ℝ) - 1 := by
-        rw [Nat.cast_sub (by omega)]; simp
-      rw [hc] at h1
+      · rw [hia]; exact hma
+      · rw [hm'ne i hia] at hi; exact hi
+    have hmono : firstT G s₀ i + m i * s₀.tDelta.at i ≤ firstT G s₀ i + m' i * s₀.tDelta.at i := by
+      by_cases hia : i = a
+      · subst hia; rw [hm'a]; push_cast; nlinarith [hδ a hσa]
+      · rw [hm'ne i hia]
+    by_cases hba : b = a
+    · subst hba
+      rw [hm'a]; push_cast
+      have := hmin i hmi
+      rw [hτ] at this
       linarith
-    have := A.geom (m i) R hl hu
-    rw [div_self hR.ne', one_mul] at this
-    unfold InClosed face
-    have e1 : o.at i + (e.at i - o.at i) = e.at i := by ring
-    rw [e1] at this
-    exact this
+    · rw [hm'ne b hba] at hpos ⊢
+      exact le_trans (hR.taken_le b i hpos hmi) hmono
+  · intro b hpos
+    show firstT G s₀ b + ((m' b : ℝ) - 1) * s₀.tDelta.at b ≤ R
+    by_cases hba : b = a
+    · subst hba
+      rw [hm'a]; push_cast
+      rw [hτ] at hτR
+      linarith
+    · rw [hm'ne b hba] at hpos ⊢
+      exact hR.taken_le_R b hpos
+
+/-- `k` `next` calls while at least `k` crossings remain, over ℝ: every cell entered is crossed -/
+theorem steps_real {sp : Spec d ℝ} (hsp : SpecOK sp) (F : RayFacts G o e R s₀) (k : ℕ) :
+    ∀ (s : State d ℝ) (c : Vec d Int) (m : Fin d → ℕ), CInv s₀ s c m → RInv G R s₀ m →
+      ∑ i, m i + k ≤ ∑ i, needed s₀ i →
+      ∀ c' ∈ (steps sp k s c).2, Crossed G o e c' := by
+  induction k with
+  | zero => intro s c m _ _ _ c' hc'; simp [steps] at hc'
+  | succ k ih =>
+    intro s c m hI hR hle c' hc'
+    obtain ⟨-, hI₁, -⟩ := next_count strictOrd_real (pickOK_of_argmin hsp) F.fresh hI (by omega)
+    obtain ⟨hcr, hR₁⟩ := next_real hsp F hI hR (by omega)
+    have hsum₁ := sum_bump m (sp.pick s.tMax)
+    simp only [steps, List.mem_cons] at hc'
+    rcases hc' with rfl | h
+    · exact hcr
+    · exact ih (next sp s c).1 (next sp s c).2 _ hI₁ hR₁ (by omega) c' h
 
 end Romea.RayCast
